@@ -28,6 +28,9 @@ def run(out, tier, seed):
             out.judge({"clause": "Internal", "why": detail}, {"text": c["text"], "tokens": c["toks"], "outcome": c["out"]})
         elif clause in ("NotRefused", "WronglyRefused", "InternalAtSelect", "RefusalNotStable"):
             out.judge({"clause": clause, "why": detail if clause == "InternalAtSelect" else c["what"]}, {"selector": c["text"], "outcome": c["outcome"], "what": c["what"]})
+        elif clause == "NearMissAccepted":
+            # a malformed text accepted because a similar well-formed one was compiled before
+            out.judge({"clause": "NotRefused", "why": "near-miss"}, {"selector": detail, "after": c["ltext"], "outcome": c["rout"]})
     for s in sigs:
         if s not in seen_real:
             out.drift.append(f"model signature {s} did not reproduce in the real parser")
